@@ -415,6 +415,21 @@ pub fn crash_case(prop: &str, case: &Case, base: &RunOpts, cc: &CrashCfg) -> Cas
     }
     // known finding exclusion: crash strictly inside the data writes of a multi-entry batch
     let mut excluded_inside = 0u64;
+    // data-write events of multi-entry batches: a torn variant of any of them (the first one
+    // included) leaves a strict prefix as well, so no torn plan is built for them while the
+    // finding is open
+    let mut no_torn: BTreeSet<u64> = BTreeSet::new();
+    if cc.exclude_inside_batch_writes {
+        for (i, st) in cr.steps.iter().enumerate() {
+            if let Step::Do(Op::Batch { lens, .. }) = st {
+                if lens.len() >= 2 && i < cr.ranges.len() {
+                    for e in cr.events.iter().filter(|e| e.n >= cr.ranges[i].0 && e.n <= cr.ranges[i].1 && (e.site == "block_write" || e.site == "batch_sqe")) {
+                        no_torn.insert(e.n);
+                    }
+                }
+            }
+        }
+    }
     if cc.exclude_inside_batch_writes {
         cands.retain(|k| {
             let Some(i) = step_of(*k) else { return true };
@@ -478,7 +493,7 @@ pub fn crash_case(prop: &str, case: &Case, base: &RunOpts, cc: &CrashCfg) -> Cas
         let site = ev.as_ref().map(|e| e.site.clone()).unwrap_or_default();
         // torn variant for some block writes (mmap backend: a store can be cut anywhere)
         let torn = match &ev {
-            Some(e) if e.site == "block_write" && e.len > 1 && (splitmix(h0 ^ *k) % 3 == 0) => Some(1 + splitmix(h0 ^ *k ^ 77) % (e.len - 1)),
+            Some(e) if e.site == "block_write" && e.len > 1 && !no_torn.contains(k) && (splitmix(h0 ^ *k) % 3 == 0) => Some(1 + splitmix(h0 ^ *k ^ 77) % (e.len - 1)),
             _ => None,
         };
         let plan = plan_for(*k, torn);
